@@ -191,7 +191,11 @@ def mode_ops(req):
                 os.utime(lp, ns=(op["lmtime_ns"], op["lmtime_ns"]), follow_symlinks=False)
         elif o == "state":
             p = spelled_link(op["l"], op["sp"]) if op.get("l") is not None else spelled(op["f"], op["sp"])
-            if op["kind"] == "path":
+            if op["kind"] == "upath":       # the same file named by a protocol UPath (stat() gives a UPathStatResult)
+                from upath import UPath
+                p = UPath("file://" + os.path.abspath(p))
+                node = PathNode(name="n", path=p)
+            elif op["kind"] == "path":
                 node = PathNode(name="n", path=p)
             elif op["kind"] == "pickle":
                 node = PickleNode(name="n", path=p)
